@@ -50,25 +50,33 @@ def evJson : Ev → Json
   | .filt f => jarr [jstr "filter", jstr f]
   | .tag t => jarr [jstr "tag", jstr t]
 
-/-- `["c19analyze", rootName, [node…]]` → the five reported collections (as lists, in model order),
+/-- `["c19analyze", rootName, [node…], [event…]]` → which of the given (traced) events no model render
+can emit, the five reported collections (as lists, in model order),
 the events some render can emit (`reach`) and whether the hypotheses of the partial theorem hold. -/
+def parseEv (j : Json) : Option Ev := do
+  match ← asArr? j with
+  | [.str "get", r, t, p, e] => pure (.get ⟨← asStr? r, ← asStr? t, ← asNat? p⟩ (← asBool? e))
+  | [.str "filter", f] => pure (.filt (← asStr? f))
+  | [.str "tag", t] => pure (.tag (← asStr? t))
+  | _ => none
+
 def handle (args : List Json) : Json :=
   match args with
-  | [name, nodes] =>
-    match asStr? name, parseNodes nodes with
-    | some tmpl, some ns =>
+  | [name, nodes, evs] =>
+    match asStr? name, parseNodes nodes, (asArr? evs).bind (mapM? parseEv) with
+    | some tmpl, some ns, some evs =>
       let st := analyze ns tmpl
       let rs := reach ns tmpl
       Json.mkObj [
+        ("unreached", jarr ((evs.filter fun e => !rs.contains e).map evJson)),
         ("variables", jarr (st.vars.map locJson)),
         ("globals", jarr (st.globs.map locJson)),
         ("locals", jarr (st.locs.map jstr)),
         ("filters", jarr (st.filters.map jstr)),
         ("tags", jarr (st.tags.map fun t => jarr [jstr t.1, jstr t.2.1, jnat t.2.2])),
-        ("reach", jarr (rs.map evJson)),
         ("hyp", Json.bool (decide ((tmpl :: partNamesNodes ns).Nodup) && noDeadIncNodes ns false)),
         ("sound", Json.bool (rs.all (evOk st)))]
-    | _, _ => jerr "bad-tree"
+    | _, _, _ => jerr "bad-tree"
   | _ => jerr "bad-args"
 
 /-- `["render", rootName, [node…], [bool…]]` → the trace of the choice-driven render. -/
